@@ -410,6 +410,45 @@ func observeV6(d dhcpv6.DHCPv6, deep bool) []obsEntry {
 	return w.entries
 }
 
+// observeAgain is the second pass after a full walk (which included the builders and helpers): the operations a
+// caller performs last — encode, print, look up the inner message, build the reply — on a value every read-only
+// operation has already been applied to once. "Read-only" operations that quietly damage the value they read
+// (an in-place filter over a shared slice, a memo that forgets its error) show here.
+func observeAgain(v any) []obsEntry {
+	w := &walker{seen: map[string]bool{}, max: 40}
+	c := func(name string, fn func() any) {
+		w.call("again."+name, func() []reflect.Value { return []reflect.Value{reflect.ValueOf(&[]any{fn()}[0]).Elem()} })
+	}
+	switch d := v.(type) {
+	case *dhcpv4.DHCPv4:
+		c("ToBytes", func() any { return d.ToBytes() })
+		c("Summary", func() any { return d.Summary() })
+		c("NewReplyFromRequest", func() any { q, err := dhcpv4.NewReplyFromRequest(d); return []any{noXid(q), err} })
+		c("ztpv4.ParseVendorData", func() any { x, err := ztpv4.ParseVendorData(d); return []any{x, err} })
+		c("RelayAgentInfo", func() any { return fmt.Sprint(d.RelayAgentInfo()) })
+	case dhcpv6.DHCPv6:
+		c("ToBytes", func() any { return d.ToBytes() })
+		c("Summary", func() any { return d.Summary() })
+		c("GetOneOption(9)", func() any { return fmt.Sprint(d.GetOneOption(dhcpv6.OptionRelayMsg)) })
+		c("GetInnerMessage", func() any { x, err := d.GetInnerMessage(); return []any{sum6m(x, false), err} })
+		c("GetTransactionID", func() any { x, err := dhcpv6.GetTransactionID(d); return []any{x, err} })
+		c("ExtractMAC", func() any { x, err := dhcpv6.ExtractMAC(d); return []any{net.HardwareAddr(x).String(), err} })
+		c("DecapsulateRelayIndex(-1)", func() any { x, err := dhcpv6.DecapsulateRelayIndex(d, -1); return []any{sum6(x), err} })
+		c("ztpv6.ParseVendorData", func() any { x, err := ztpv6.ParseVendorData(d); return []any{x, err} })
+		if r, ok := d.(*dhcpv6.RelayMessage); ok {
+			c("NewRelayReplFromRelayForw", func() any {
+				x, err := dhcpv6.NewRelayReplFromRelayForw(r, &dhcpv6.Message{MessageType: dhcpv6.MessageTypeReply})
+				return []any{sum6(x), err}
+			})
+		}
+		if m, ok := d.(*dhcpv6.Message); ok {
+			c("NewReplyFromMessage", func() any { x, err := dhcpv6.NewReplyFromMessage(m); return []any{sum6m(x, false), err} })
+			c("IsNetboot", func() any { return m.IsNetboot() })
+		}
+	}
+	return w.entries
+}
+
 func sum6(d dhcpv6.DHCPv6) any {
 	if d == nil || reflect.ValueOf(d).IsNil() {
 		return nil
